@@ -65,7 +65,7 @@ def _mkds(seed):
 
     rng = _pyrandom.Random(seed)
     chroms = ["chr1", "chr2", "chrX"] + (["chrY"] if rng.random() < 0.4 else [])
-    nb = rng.choice([40, 70, 110])
+    nb = rng.choice([30, 50, 70])
     rows, raw_t, raw_a, refrows, baits, access = [], [], [], [], [], []
     for c in chroms:
         pos = rng.randint(0, 50000)
@@ -196,8 +196,33 @@ def digest(x):
     return hashlib.sha1(json.dumps(_canon(x), sort_keys=True, separators=(",", ":")).encode()).hexdigest()[:16]
 
 
+def _frame_bytes(h, df):
+    import numpy as np
+    h.update(("|".join(map(str, df.columns)) + "#" + "|".join(str(t) for t in df.dtypes)).encode())
+    idx = df.index
+    h.update(np.asarray(idx).tobytes() if idx.dtype != object else "\x00".join(map(str, idx)).encode())
+    for c in df.columns:
+        v = df[c].to_numpy()
+        if v.dtype == object or v.dtype.kind in "OUS":
+            h.update("\x00".join(map(str, v)).encode())
+        else:
+            h.update(np.ascontiguousarray(v).tobytes())
+        h.update(b"\x01")
+
+
+def arg_digest(x):
+    """exact (bit-level) fingerprint of an argument object: frames incl. index and dtypes, lists, dicts minus
+    chr_x / chr_y meta.  Only ever compared with the fingerprint of the same object before the call."""
+    if hasattr(x, "data") and hasattr(x, "meta"):
+        h = hashlib.sha1(type(x).__name__.encode())
+        _frame_bytes(h, x.data)
+        h.update(repr(sorted((str(k), repr(v)) for k, v in x.meta.items() if k not in ("chr_x", "chr_y"))).encode())
+        return h.hexdigest()[:16]
+    return digest(x)
+
+
 def snapshot(env):
-    return {k: digest(v) for k, v in env.items()}
+    return {k: arg_digest(v) for k, v in env.items()}
 
 
 # ---------------------------------------------------------------------------------------------
@@ -374,18 +399,20 @@ def _heap(env):
 
 
 def _tables(env):
-    return sorted([k, digest(v)] for k, v in env.items() if k not in HEAP_NAMES)
+    return sorted([k, arg_digest(v)] for k, v in env.items() if k not in HEAP_NAMES)
 
 
 def _run_history(case):
     i = case["in"]
     env = fresh_env(i["ds"])
     out = {"heap0": _heap(env), "steps": []}
+    after = _tables(env)
     for st in i["steps"]:
-        before = _tables(env)
+        before = after
         res = _run_op(st["name"], env, st["seed"])
+        after = _tables(env)
         out["steps"].append({"res": res, "fresh": reference_result(i["ds"], base_of(st["name"])),
-                             "before": before, "after": _tables(env), "heap": _heap(env)})
+                             "before": before, "after": after, "heap": _heap(env)})
     return out
 
 
@@ -621,6 +648,10 @@ def judge(case, impl, resp):
     spec_fail = list(resp.get("spec") or [])
     disagree = []
     if op == "history":
+        for a in impl["steps"]:
+            # a step of the alphabet that cannot even be computed on fresh copies returns no table at all
+            if a["fresh"].startswith("ERR:") and ("raises_" + a["fresh"].split(":")[1]) not in spec_fail:
+                spec_fail.append("raises_" + a["fresh"].split(":")[1])
         for k, (a, b) in enumerate(zip(impl["steps"], out["steps"])):
             if a["res"] != b["res"]:
                 disagree.append("step %d (%s): result %s, model (pure function) %s" % (k, case["in"]["steps"][k]["name"], a["res"], b["res"]))
